@@ -32,8 +32,10 @@ def make_new_world(rng, w, unseen_prob):
                 s.iloc[r] = 777
                 cols["k"]["v"][r] = 777
                 cols["C(k)"]["v"][r] = UNSEEN_CODE
+                cols["C(k, levels=KL)"]["v"][r] = UNSEEN_CODE
             new["k"] = s
             touched.add("C(k)")
+            touched.add("C(k, levels=KL)")
         elif v == "o":
             # an ordered categorical: a value outside the declared categories
             s = new["o"].astype(object)
@@ -47,6 +49,11 @@ def make_new_world(rng, w, unseen_prob):
             for r in rows:
                 s.iloc[r] = "NEW_" + v + str(rng.randint(1, 2))
                 cols[v]["v"][r] = UNSEEN_CODE
+                if v == "h":
+                    cols["I(h)"]["v"][r] = UNSEEN_CODE
+                    cols["S(h)"]["v"][r] = UNSEEN_CODE
+                if v == "g":
+                    cols["C(g, Sum)"]["v"][r] = UNSEEN_CODE
             new[v] = s
             touched.add(v)
     return new, {"n": n2, "cols": cols}, touched
@@ -58,8 +65,8 @@ def _events(args):
 
     rng = random.Random((seed * 32452843 + idx) & 0xFFFFFFFF)
     w = gen.gen_world(rng, nmin=4, nmax=16)
-    text, used, struct = gen.gen_formula(rng, groups=True, max_terms=3, resp="y", cat_comps=["f", "g", "h", "o", "C(k)"], num_comps=["x", "z", "I(x * 2)"])
-    st, dm = design.build(text, w.df)
+    text, used, struct = gen.gen_formula(rng, groups=True, max_terms=3, resp="y", cat_comps=["f", "g", "h", "o", "C(k)", "C(k, levels=KL)", "I(h)"], num_comps=["x", "z", "I(x * 2)"])
+    st, dm = design.build(text, w.df, extra_namespace=dict(w.namespace))
     if st != "ok":
         return [], text
     train = {"n": w.n, "cols": copy.deepcopy(w.cols)}
